@@ -1,0 +1,28 @@
+//go:build verif
+
+// Package verifpoint provides named schedule / observation points for the
+// model-based verification harness. With the "verif" build tag a test harness
+// may install a hook; the hook may block, which makes a point a scheduler gate.
+package verifpoint
+
+import "sync/atomic"
+
+type Hook func(point string, key uint32)
+
+var hook atomic.Pointer[Hook]
+
+// SetHook installs (or, with nil, removes) the hook.
+func SetHook(h Hook) {
+	if h == nil {
+		hook.Store(nil)
+		return
+	}
+	hook.Store(&h)
+}
+
+// At marks a named point. key identifies the operation instance (e.g. a query id).
+func At(point string, key uint32) {
+	if h := hook.Load(); h != nil {
+		(*h)(point, key)
+	}
+}
